@@ -17,7 +17,9 @@ import os
 
 import vlib
 
-M_ACTIONS = ["InitCall", "TrySet", "InitRet", "ObsCall", "Read", "ObsReturn"]
+M_ACTIONS = ["DoInitCall", "DoTrySet", "DoInitRet", "DoObsCall", "DoRead", "DoObsReturn"]
+HANDLE_ENTRY_POINTS = ["try_init_slot", "init_slot", "try_init", "init", "try_init_internal",
+                       "init_internal"]
 ENTRY_POINTS = ["try_init_slot", "init_slot", "slot_init", "try_init", "init",
                 "try_init_internal", "init_internal", "internal_slot_init"]
 
@@ -91,6 +93,16 @@ def _report_rejection(ctx, trace, label, last, reason, origin):
             else:
                 d = "%s->%s" % (c["op"], [t for t in e["tags"] if t != 99])
             obs.append("%d:%s%s" % (e["o"], d, " PANIC" if e["pan"] else ""))
+    hcall = {}
+    for e in evs:
+        if e["e"] == "HCall":
+            hcall[e["i"]] = e
+        elif e["e"] == "HRet":
+            c = hcall.pop(e["i"], {"op": "?"})
+            obs.append("init%d:%s(%s)->tags %s fl=%s emitter:%s asked %sx%s" % (
+                e["i"], c["op"], c.get("tmo", ""), [t for t in e["tags"] if t != 99], e["fl"],
+                {0: "not asked", 1: False, 2: True}.get(e.get("fa")), e.get("nfl"),
+                " PANIC" if e["pan"] else ""))
     hangs = ["HANG in %s" % e["in"] for e in evs if e["e"] == "Hang"]
     sig = "C20 %s: round rejected (%s); results %s; observations %s" % (
         origin, reason1 or reason, ",".join(inits), ("; ".join(obs + hangs))[:500])
@@ -140,6 +152,12 @@ def run(ctx):
             ctx.spec_violation(r, "Slot.tla: %s violated by the once-cell design" % r.violated)
             return
         ctx.require_actions(r, M_ACTIONS, cfg)
+    # the post-initialisation phase: operations of the winner through its Init handle
+    r = ctx.tlc("Slot", "Slot_handle.cfg", workers=2, timeout=600, xmx="3g")
+    if r.violated:
+        ctx.spec_violation(r, "Slot.tla: %s violated (handle phase)" % r.violated)
+        return
+    ctx.require_actions(r, M_ACTIONS + ["HandleCall", "HandleReturn"], "Slot_handle.cfg")
     want = {"percomponent": "AllFiveTogether", "twostep": "Stable", "lastwins": "AtMostOneWinner"}
     for d, inv in want.items():
         r = ctx.tlc("Slot", "Slot_design_%s.cfg" % d, workers=2, count=False, coverage=False,
@@ -180,7 +198,7 @@ def run(ctx):
         for fu in concurrent.futures.as_completed(futs):
             results[futs[fu][0]] = (futs[fu], fu.result())
     stats = {"rounds": 0, "events": 0, "rounds_observing_both_sides": 0, "init_panics": 0,
-             "rounds_with_3_racers": 0, "entry_points": {}}
+             "rounds_with_3_racers": 0, "entry_points": {}, "handle_ops": {}}
     for label, ((_, path, origin), (ok, last, reason)) in sorted(results.items()):
         if origin == "selftest":
             if not results[jobs[0][0]][1][0]:
@@ -206,6 +224,11 @@ def run(ctx):
     # observed afterwards (vacuity guard over the entry points)
     missing = [k for k in ENTRY_POINTS
                if not all(stats["entry_points"].get(k, {}).get(f) for f in ("won", "lost", "observed"))]
+    hmissing = ["%s/%s" % (k, op) for k in HANDLE_ENTRY_POINTS
+                for op in ("h_probe", "h_flush", "h_guard_drop")
+                if not stats["handle_ops"].get("%s/%s" % (k, op))]
+    if not ctx.violations and hmissing:
+        raise vlib.ToolError("Init handle operations not exercised: %s" % hmissing)
     if not ctx.violations and missing:
         raise vlib.ToolError("initialisation entry points not exercised (won/lost/observed): %s; %s"
                              % (missing, stats["entry_points"]))
@@ -223,6 +246,10 @@ def run(ctx):
         "AmbientSlot::init on fresh slots, try_init / init on the shared slot, try_init_internal / "
         "init_internal / AmbientInternalSlot::init on the internal slot (global slots: one round "
         "per child process); each must be seen winning, losing and observed afterwards",
+        "the winner of a Setup form uses its Init handle afterwards: Init::get (five probes), "
+        "Init::blocking_flush, Init::flush_on_drop + InitGuard::inner + drop of the guard, with "
+        "the seeded timeouts; each must reach the caller's own = the installed configuration, a "
+        "flush asking the emitter exactly once and returning its answer",
         "each of the five tagged components answers with a non-default value (the filter rejects "
         "a marker module the empty filter accepts)",
         "flush observations use seeded timeouts {0, 1 ns, 1 ms, 1 s, Duration::MAX} through "
@@ -279,6 +306,10 @@ def _stats(path, stats, ctx):
                 if len(t) >= 4 and t[0] != 0:
                     # emit / span / probe on an installed configuration: all components
                     cur["obs_installed"] = True
+            elif line.startswith('{"e":"HCall"'):
+                e = json.loads(line)
+                k = "%s/%s" % (cur["kinds"].get(e["i"], "?"), e["op"])
+                stats["handle_ops"][k] = stats["handle_ops"].get(k, 0) + 1
             elif line.startswith('{"e":"InitCall"'):
                 e = json.loads(line)
                 cur["kinds"][e["i"]] = e["k"]
